@@ -138,7 +138,10 @@ const SPECIAL_CHARS: [char; 25] = [
 /// regarding quoting style are left unspecified.
 pub fn quote(s: OsString) -> String {
     let lossy = s.to_string_lossy();
-    if lossy
+    if lossy.is_empty() {
+        // an empty word has to be quoted, otherwise it would vanish
+        "''".to_string()
+    } else if lossy
         .chars()
         .any(|c| c < '\u{20}' || c == '\u{7f}' || c == '\u{fffd}' || c == '\'')
     {
